@@ -225,6 +225,7 @@ fn dispatch(scenario: &str, seed: u64, worker: usize, slot: &Slot) {
         "kvs-linz" => store::kvs_linearizability(seed, worker, slot),
         "kvs-cursor" => store::kvs_held_cursor(seed, worker, slot),
         "kvs-live" => store::kvs_liveness(seed, worker, slot),
+        "kvs-verifier" => store::kvs_with_verifier(seed, worker, slot),
         "tree-live" => store::tree_liveness(seed, worker, slot),
         other => panic!("unknown scenario {other}"),
     }
@@ -237,6 +238,7 @@ fn property_of(scenario: &str) -> &'static str {
         "logc" | "logc-fault" => "C12",
         "kvs-linz" => "C06",
         "kvs-cursor" => "C07",
+        "kvs-verifier" => "C08",
         "kvs-live" | "tree-live" => "C20",
         _ => "?",
     }
